@@ -31,6 +31,7 @@ ASSUMPTIONS = [
     "ruff is replaced by an identity stand-in when the plugin formats its output",
 ]
 FLOORS = {"quick": {"calls": 1200, "methods": 30}, "thorough": {"calls": 40000, "methods": 300}}
+ANCHORS = ['ServiceStub._unary_unary', 'ServiceStub._unary_stream', 'ServiceStub._stream_unary', 'ServiceStub._stream_stream', 'ServiceStub._send_messages', 'ServiceBase._call_rpc_handler_server_stream']
 CONTRACTS = []
 SHARD_TIMEOUT = {"quick": 600, "thorough": 3000}
 
